@@ -26,6 +26,7 @@ Q_ALIAS = [
     # scalar force-law kernels f(t, l, l_dot[, la_c]) depend on q through l (and l_dot)
     (r"^_la_c$", ["_la_c_l", "_la_c_l_dot"]), (r"^_c$", ["_c_l", "_c_l_dot"]),
     (r"^__c$", ["__c_q"]), (r"^force$", ["force_q"]),
+    (r"^_eval$", ["_deval"]),  # rod kernels: _deval returns _eval's outputs plus their qe-derivatives
 ]
 E_ALIAS = [
     # energy atom -> the generalized force direction through which the force enters h  (E_pot <-> h coverage)
@@ -35,7 +36,8 @@ E_ALIAS = [
 U_ALIAS = [
     # velocity-like quantity -> Jacobian w.r.t. u   (reason: naming convention v = J u + ...)
     (r"^v_P$", ["J_P"]), (r"^v_J([12])$", [r"J_J\1"]), (r"^v_C([12])$", [r"J_C\1"]),
-    (r"^Omega$", ["J_R"]), (r"^B_Omega$", ["B_J_R"]), (r"^Omega([12])$", [r"J_R\1", r"J\1_R"]),
+    (r"^Omega$", ["J_R"]), (r"^B_Omega$", ["B_J_R", "basis_functions_p", "basis_functions_r"]),  # rods assemble dB_Omega/du = N (x) I inline
+    (r"^Omega([12])$", [r"J_R\1", r"J\1_R"]),
     (r"^q_dot$", ["q_dot_u"]), (r"^g_dot$", ["W_g", "g_dot_u"]), (r"^g_N_dot$", ["g_N_dot_u", "W_N"]),
     (r"^gamma_F$", ["gamma_F_u", "W_F"]), (r"^gamma$", ["gamma_u", "W_gamma"]), (r"^l_dot$", ["l_dot_u", "W_l"]),
     (r"^v_P1P2$", []), (r"^_la_c$", ["_la_c_l_dot"]), (r"^_c$", ["_c_l_dot"]),
@@ -254,7 +256,7 @@ class K5:
 TIME_CHAINS = [("g", "g_dot"), ("g_dot", "g_ddot"), ("g_N", "g_N_dot"), ("g_N_dot", "g_N_ddot"), ("gamma_F", "gamma_F_dot"),
                ("gamma", "gamma_dot"), ("l", "l_dot"), ("r_OP", "v_P"), ("v_P", "a_P")]
 W_PAIRS = [("W_g", "Wla_g_q"), ("W_gamma", "Wla_gamma_q"), ("W_c", "Wla_c_q"), ("W_N", "Wla_N_q"), ("W_F", "Wla_F_q"),
-           ("W_tau", "Wla_tau_q"), ("W_l", "W_l_q")]
+           ("W_tau", "Wla_tau_q"), ("W_l", "W_l_q"), ("W_c_el", "Wla_c_el_qe"), ("W_g_el", "Wla_g_q_el"), ("g_el", "g_q_el")]
 
 
 def pairs_of(k5: K5):
